@@ -465,18 +465,18 @@ impl RawOpaquePool {
         // SAFETY: Caller guarantees the handle is valid for this pool.
         let slab = unsafe { self.slabs.get_unchecked_mut(handle.slab_index()) };
 
-        // SAFETY: Caller guarantees the handle is valid for this pool.
-        unsafe {
-            slab.remove(handle.slab_handle());
-        }
+        // Removing the object from the slab runs the object's destructor, which may panic. The slab
+        // restores its own state before it runs the destructor, so we likewise complete the pool-level
+        // bookkeeping first - if the panic then propagates, the pool is still in a consistent state.
+        let removing_from_full_slab = slab.is_full();
 
-        // Update our tracked length since we just removed an object.
-        // This cannot wrap around because we just removed an object,
+        // Update our tracked length since we are removing an object.
+        // This cannot wrap around because the caller guarantees the object is present in the pool,
         // so the value must be at least 1 before subtraction.
         self.length = self.length.wrapping_sub(1);
 
-        if slab.len() == self.slab_layout.capacity().get().wrapping_sub(1) {
-            // We removed from a full slab.
+        if removing_from_full_slab {
+            // We are removing from a full slab.
             // This means we have a vacant slot where there was not one before.
 
             // SAFETY: We are currently operating on the slab, so it must be an existing slab.
@@ -485,6 +485,11 @@ impl RawOpaquePool {
                 self.vacancy_tracker
                     .update_slab_status(handle.slab_index(), true);
             }
+        }
+
+        // SAFETY: Caller guarantees the handle is valid for this pool.
+        unsafe {
+            slab.remove(handle.slab_handle());
         }
 
         #[cfg(folo_verif)]
